@@ -49,7 +49,8 @@ EXPECTED_PROBES = ["probe.tie_prerun_vs_inrun", "probe.cancelled_skipped", "prob
                    "probe.events_created_before_simulation", "probe.cancelled_after_schedule",
                    "probe.event_object_retimed_and_returned", "probe.nonzero_start_with_duration",
                    "probe.event_before_start_time_discarded", "probe.prepared_event_tied_with_inrun_event",
-                   "probe.injected_while_paused_tied_with_inrun_event"]
+                   "probe.injected_while_paused_tied_with_inrun_event",
+                   "probe.events_built_in_an_earlier_run_tied_with_initial"]
 SHRINK_SKIP = ("n_entities", "n_kinds")
 
 
@@ -68,6 +69,10 @@ def gen(rng, tier):
         if prog["end"] is not None and prog["end"] < prog["start"]:
             prog["end"] = prog["start"] + prog["end"]
     prog["use_duration"] = prog["end"] is not None and rng.random() < 0.4
+    if rng.random() < 0.15:
+        times = sorted({i["t"] for i in prog["initial"]}) or [0]
+        prog["stash"] = [{"t": rng.choice(times), "to": rng.randrange(prog["n_entities"]), "k": rng.randrange(prog["n_kinds"]),
+                          "daemon": rng.random() < 0.1} for _ in range(rng.randint(1, 4))]
     # events built and scheduled from outside while the run is paused (control mode): they are younger than
     # everything created so far and older than everything created after the run continues
     if prog["mode"] == "control" and rng.random() < 0.3:
@@ -96,6 +101,9 @@ def _validate(sc):
             return 0 <= e["prep"] < n_prep
         return 0 <= e["to"] < n and 0 <= e["k"] < k
 
+    for pe in sc.get("stash", []):
+        if not (0 <= pe["to"] < n and 0 <= pe["k"] < k) or pe["t"] < 0:
+            raise InvalidScenario("stash out of range")
     for pe in sc.get("prepared", []):
         if not (0 <= pe["to"] < n and 0 <= pe["k"] < k) or pe["t"] < 0:
             raise InvalidScenario("prepared out of range")
@@ -138,6 +146,21 @@ def run_engine(sc):
     # perturbation: unrelated earlier activity in the interpreter
     for _ in range(sc.get("perturb", 0)):
         _E(time=Instant(0), event_type="noise", target=pr.entities[0])
+    stash_events = []
+    if sc.get("stash"):
+        # an earlier, completed simulation whose handler builds Event objects that outlive it
+        from happysimulator.core.entity import Entity as _Ent
+
+        class _Planner(_Ent):
+            def handle_event(self, event):
+                for st in sc["stash"]:
+                    stash_events.append(pr.new_event(st["t"], st["to"], st["k"], st.get("daemon", False)))
+                return None
+
+        planner = _Planner("planner")
+        aux = Simulation(entities=[planner])
+        aux.schedule(_E(time=Instant(0), event_type="plan", target=planner))
+        aux.run()
     cb = sc.get("create_before_sim", 0)
     n_before = len(sc["initial"]) if cb is True else int(cb or 0)
     pr.create_initial(0, n_before)          # built before the Simulation object exists
@@ -158,6 +181,8 @@ def run_engine(sc):
         else:
             for e in evs:
                 sim.schedule(e)
+    if stash_events:
+        sim.schedule(stash_events)
     pr.apply_late_cancels()
     pr.injected = {}
     pr.injected_cancels = {}
@@ -296,6 +321,7 @@ def run(sc):
         "probe.events_created_before_simulation": int(0 < (len(sc["initial"]) if sc.get("create_before_sim") is True else int(sc.get("create_before_sim") or 0)) < len(sc["initial"])),
         "probe.cancelled_after_schedule": int(any(i.get("cancel") == "late" for i in sc["initial"])),
         "probe.event_object_retimed_and_returned": int(any(x[1] < -1 for x in ref.log)),
+        "probe.events_built_in_an_earlier_run_tied_with_initial": int(bool(sc.get("stash")) and _stash_tie(sc, ref)),
         "probe.injected_while_paused_tied_with_inrun_event": int(_inject_tie(ref)),
         "probe.prepared_event_tied_with_inrun_event": int(_prep_tie(ref)),
         "probe.nonzero_start_with_duration": int(bool(sc.get("start")) and bool(sc.get("use_duration"))),
@@ -311,6 +337,15 @@ def run(sc):
         counters=counters, sim_s=ref.now / 1e9 if ref.now < 10**13 else 0.0, deliveries=len(pr.log),
         klass=sc.get("mode", "?"), state=state,
     )
+
+
+def _stash_tie(sc, ref) -> bool:
+    n = len(sc.get("stash", []))
+    by_t = {}
+    for uid, step, t in ref.log:
+        if step < 0:
+            by_t.setdefault(t, set()).add("stash" if uid < n else "other")
+    return any(len(v) == 2 for v in by_t.values())
 
 
 def _inject_tie(ref) -> bool:
